@@ -1,6 +1,6 @@
 #!/bin/bash
 # Cross-detection matrix: every registered quick check against every seeded change (scratch worktrees only).
-cd /verif
+cd "$(dirname "$0")/.." || exit 2
 for d in seeded/C*; do
   id=$(basename $d)
   tools/mutant.sh detect $d/patch.diff 2>&1 | sed "s/^/$id /"
